@@ -12,7 +12,7 @@ from eth_hash.auto import keccak  # noqa: E402
 import props.c12 as c12  # noqa: E402
 
 ID = "C13"
-LEAN_IMPORTS = ["PyTrie.Props.C13", "PyTrie.Props.NonVacuity", "PyTrie.Props.NonVacuity2"]
+LEAN_IMPORTS = ["PyTrie.Props.C13", "PyTrie.Props.NonVacuity", "PyTrie.Props.NonVacuity2", "PyTrie.Props.C13History"]
 THEOREMS = [
     "PyTrie.Props.C13.branch_refusal",
     "PyTrie.Props.C13.branch_refusal_iff",
@@ -41,6 +41,11 @@ THEOREMS = [
     "PyTrie.Props.NonVacuity2.c13_raw_get_branch",
     "PyTrie.Props.NonVacuity2.c13_raw_trie_nodes",
     "PyTrie.Props.NonVacuity2.c13_raw_witness",
+    "PyTrie.Props.C13.history_base",
+    "PyTrie.Props.C13.history_exists",
+    "PyTrie.Props.C13.history_branch",
+    "PyTrie.Props.C13.history_branch_sound",
+    "PyTrie.Props.C13.history_nodes_and_witness",
 ]
 RULE = ("binary tries built by generated histories over fixed-length and prefix-related key pools; for every pool key, its "
         "byte prefixes, extensions and bit-neighbours: get_branch (node list or InvalidKeyError), if_branch_valid on the honest "
